@@ -886,6 +886,9 @@ func Run(focus string) func(o lib.Opts) {
 			for i := uint64(0); i < 12; i++ { // identical image already at the target, then a copy that wants the referrers too
 				all = append(all, Case{Kind: "copy", Seed: 4000 + i, Pair: "regreg", PrepopAll: true, Referrers: true, RefAPI: i%2 == 0})
 			}
+		}
+		if focus == "C03" || focus == "C04" {
+			// a layer with external URLs copied with include-external: the manifest may only be pushed once that layer is at the target
 			for i := uint64(0); i < 4; i++ {
 				all = append(all, Case{Kind: "foreign", Seed: 4100 + i, Pair: lib.Pick(r, []string{"regreg", "reg2dir"}), External: true})
 			}
